@@ -47,6 +47,9 @@ def term_pairs(r, thorough):
             out.append((("label", lab), ("lit", n)))
             out.append((("lit", n), ("label", lab)))
             out.append((("label", lab), ("equ", n, r.choice(["before", "after"]))))
+        for n in (-1, -2, -127, -128, -129, -300):      # a label with a negative EQU constant (wave 10, C01-N / C04-P)
+            out.append((("label", lab), ("equ", n, r.choice(["before", "after"]))))
+            out.append((("equ", n, r.choice(["before", "after"])), ("label", lab)))
     out.append((("label", "LB"), ("label", "LA")))
     out.append((("label", "LA"), ("label", "LB")))
     return out
